@@ -72,6 +72,11 @@ CHECKS = {
             "Generated-input search in which the level is a generated quantity (never the default alone), with an independent root of the analytic CLs curve as oracle.",
             "Trusted: vlib/refstats.py; tight optimiser tolerance; only curves crossing the level inside the scanned range are checked; the NaN-at-mu=0 failure of the automatic scan is a recorded known finding.",
             "DESIGN.md#c09"),
+    "C13": ("exploration",
+            "Hypothesis-generated well-posed specs x points in every interpolation regime (breakpoints, float neighbours) x data x {jax, pytorch, tensorflow} x do_stitch x fixed masks; oracle: Richardson-extrapolated finite differences of the independent reference NLL (one-sided at breakpoints, subgradient interval at kinks), value agreement with the non-differentiating path",
+            "Generated-input search comparing every gradient component with a derivative of an independently implemented objective; no test in the suite compares a gradient with a derivative.",
+            "Trusted: vlib/refmodel.py NLL; finite differences accurate to ~1e-8 relative, tolerance 2e-6 (2e-5 at breakpoints); code1 at exactly alpha=0 is a recorded known finding (excluded by construction, 3 stored replays).",
+            "DESIGN.md#c13"),
 }
 
 NOT_YET = "check not built yet in this session (work in progress; the design in DESIGN.md section 5 applies)"
